@@ -7,7 +7,7 @@ class C06(StartupProp):
     tags = ("C06",)
     quick_cases = 400
     thorough_cases = 20000
-    gen_kwargs = {"max_nodes": 8, "max_depth": 3, "p_await": 0.9, "p_burst": 0.2, "p_stuck": 0.05, "p_opt": 0.15,
+    gen_kwargs = {"max_nodes": 8, "max_depth": 3, "p_await": 0.9, "p_burst": 0.2, "p_busy": 0.12, "p_stuck": 0.05, "p_opt": 0.15,
                   "p_factory": 0.25, "p_delay_pub": 0.6, "min_nodes": 3, "p_act_await": 0.4}
     rule = ("1-5 waiting components x 1-5 publishing components in trees of <=8 nodes; publication before / in the same "
             "instant as / after the request (tick delays 0/1/2/3/5), non-matching publications (same name other type, "
